@@ -107,9 +107,13 @@ example := (Theorems.C13.C13_wrap_group (F := Int) d0 {} (.child (chE "a") .nil)
 /-- `C13_wrap_union_self` -/
 example := Theorems.C13.C13_wrap_union_self (F := Int) wf_d0 {} rfl hashInj_d0 q1_abs.pathPF (.node 6) (by decide)
 
-/-- `C13_wrap_not_not` (`h`: the operand evaluates to a node-set) -/
+/-- `C13_wrap_not_not` (no hypothesis left): a node-set operand, and a *number* operand
+(`not(not(0))` is `boolean(0)`, i.e. false — it was `true` before the repair of `notFunc`) -/
 example := Theorems.C13.C13_wrap_not_not (F := Int) d0 {} .nil .nil .nil planR (.node 6)
-  (.inl ⟨[.attr 2 0, .attr 4 0], by simp only [planR]; sel_decide⟩)
+example : evalP (F := Int) d0 {} (.func "not" .nil (.pcons (.func "not" .nil (.pcons (.constNum "0") .pnil)) .pnil))
+    (.node 6) = .ok (.bool false) := by
+  rw [Theorems.C13.C13_wrap_not_not (F := Int) d0 {} .nil .nil .nil (.constNum "0") (.node 6)]
+  sel_decide
 
 /-! ## iterator level: the context node after a `Select` (`Model/Pull2`) -/
 
